@@ -115,7 +115,9 @@ def run(item, ctx, tier, seed):
                 for nm in COUNTS:
                     ok, v = guarded(ctx, "count-" + nm, c2, get, nm)
                     ctx.tick()
-                    if ok and not (np.ndim(v) == 0 and F(np.asarray(v).item()) == d[nm]):
+                    # integer matrices: exact; float matrices: sums are rounded once, so 1e-12 relative
+                    if ok and not (np.ndim(v) == 0 and (F(np.asarray(v).item()) == d[nm] if sc == 1 else
+                                                         abs(float(v) - float(d[nm])) <= 1e-12 * max(1.0, abs(float(d[nm]))))):
                         ctx.fail("count-equals-definition", dict(c2, metric=nm), observed=v, expected=float(d[nm]))
                 for nm in RATES:
                     ok, v = guarded(ctx, "rate-" + nm, c2, get, nm)
@@ -127,7 +129,7 @@ def run(item, ctx, tier, seed):
                                  expected="float")
                         v = float(v)
                     obs[(api, nm)] = v
-                    _check_rate(ctx, c2, nm, v, d[nm], 1e-12 if nm in ("fdr", "for_", "error_rate") else 0.0 if sc == 1 else 1e-15)
+                    _check_rate(ctx, c2, nm, v, d[nm], 1e-12 if nm in ("fdr", "for_", "error_rate") or sc != 1 else 0.0)
                 for al, orig in ALIASES.items():
                     ok, v = guarded(ctx, "alias-" + al, c2, get, al)
                     ctx.tick()
